@@ -576,6 +576,8 @@ func (b *Reader) SkipTo(ty, tag byte, require bool) (bool, error) {
 // ReadSliceInt8 reads []int8 for the given length and the require or optional sign.
 func (b *Reader) ReadSliceInt8(data *[]int8, len int32, require bool) error {
 	if len <= 0 {
+		// an empty vector was sent: do not leave earlier content in a reused target
+		*data = nil
 		return nil
 	}
 
@@ -593,6 +595,8 @@ func (b *Reader) ReadSliceInt8(data *[]int8, len int32, require bool) error {
 // ReadSliceUint8 reads []uint8 force the given length and the require or optional sign.
 func (b *Reader) ReadSliceUint8(data *[]uint8, len int32, require bool) error {
 	if len <= 0 {
+		// an empty vector was sent: do not leave earlier content in a reused target
+		*data = nil
 		return nil
 	}
 
